@@ -6,6 +6,9 @@ namespace Dirk.Gen
 /-- rules/standard/storage.go, NewStore: the value assigned to the SyncWrites option -/
 def storeSyncWrites : Option String := some "true"
 
+/-- NewStore: every badger option it sets -/
+def storeOptionsSet : List String := ["Logger", "SyncWrites", "TableLoadingMode", "ValueLogLoadingMode"]
+
 /-- createServer: all fields set on the server's tls.Config, and all methods called on it -/
 def tlsConfigFields : List String := ["Certificates", "ClientAuth", "ClientCAs", "MinVersion"]
 def tlsConfigCalls : List String := []
